@@ -113,6 +113,7 @@ structure Facts where
   eval : Sqlgrep.Oracles := {}                        -- the evaluator's tables (casts, `regexp_matches`, `upper`/`lower`)
   reals : List (Nat × Print.Bytes × Print.Bytes) := []  -- REAL bits ↦ `{:.2}` rendering, serde_json rendering
   fs : List (String × List Nat) := []                 -- the files that exist besides the input files: path ↦ content
+  lossy : List (List Nat × List Nat) := []            -- `String::from_utf8_lossy` of delivered lines that are not valid UTF-8 (follow mode)
   deriving Inhabited
 
 def lexOracles (F : Facts) : Lex.Oracles :=
